@@ -293,7 +293,13 @@ fn emit_logs(point: &str, phase: &str, s: &str, att: i64, label: &str) {
         }
     });
     for k in 0..n {
-        let msg = format!("L|{s}|{att}|{}|{phase}{k}", label.replace(' ', "_"));
+        // (some messages contain `__`, the separator the collector appends
+        // its scenario suffix with)
+        let msg = format!(
+            "L|{s}|{att}|{}|{phase}{k}{}",
+            label.replace(' ', "_"),
+            if k % 3 == 2 { "__init__" } else { "" },
+        );
         rec(
             "cb",
             json!({"cb":"log","point":point,"s":s,"att":att,"label":label,
